@@ -472,7 +472,7 @@ func c18Gen(t *rapid.T) interface{} {
 			if st := l.SingleLineCommentStart(); st != "" {
 				sb.WriteString(st)
 				sb.WriteString(lib.PickStr(t, []string{"", " comment", " Copyright 2020 \"quoted\"", "é 日本", st, " /* not multi */"}, "sltext"))
-				sb.WriteString("\n")
+				sb.WriteString(lib.PickStr(t, []string{"\n", "\n", "\r\n", ""}, "slEnd"))
 			}
 		case 4: // multi line comment
 			if st := l.MultilineCommentStart(); st != "" {
@@ -483,7 +483,7 @@ func c18Gen(t *rapid.T) interface{} {
 				sb.WriteString(l.MultilineCommentEnd())
 			}
 		case 5:
-			sb.WriteString("\n")
+			sb.WriteString(lib.PickStr(t, []string{"\n", "\n", "\r\n", "\r\n", "\r"}, "lineBreak"))
 		case 6: // adjacent lexemes without separator are the interesting case
 		}
 	}
